@@ -88,3 +88,31 @@ func TestVerifWitness_D17(t *testing.T) {
 	_, err = New(prog, false, false, "").Emit()
 	fmt.Printf("WITNESS-PASSES D17 no panic (emit err=%v)\n", err)
 }
+
+// D4: statements written after a 'break' in the same block are dropped by the work list - user labels included
+// (C04: every label the author wrote inside a script is still there exactly once, even in unreachable code)
+func TestVerifWitness_D4(t *testing.T) {
+	src := "script S {\n while (flag(A)) {\n  x\n  break\n  Later:\n  y\n }\n}\nscript T {\n goto(Later)\n}\n"
+	p := parser.New(lexer.New(src), parser.CommandConfig{}, "", "", 0, nil)
+	prog, err := p.ParseProgram()
+	if err != nil {
+		fmt.Printf("WITNESS-PASSES D4 (rejected by the parser: %v)\n", err)
+		return
+	}
+	out, err := New(prog, false, false, "").Emit()
+	if err != nil {
+		fmt.Printf("WITNESS-PASSES D4 (rejected by the emitter: %v)\n", err)
+		return
+	}
+	n := 0
+	for _, ln := range strings.Split(out, "\n") {
+		if ln == "Later:" || ln == "Later::" {
+			n++
+		}
+	}
+	if n != 1 {
+		fmt.Printf("WITNESS-FAILS D4 the label 'Later' written after 'break' is defined %d times in the output (a goto to it is emitted)\n", n)
+		return
+	}
+	fmt.Printf("WITNESS-PASSES D4 label kept\n")
+}
